@@ -10,6 +10,9 @@ package slip
 // return-from / go marker an evaluation hands back: nothing more is evaluated
 // and the marker is the function's result.
 //@ every-function slip forward-exits
+// C05, package-wide (thorough tier): no function makes a number that existed
+// when it was entered the target of a mutating math/big method.
+//@ every-function slip operands-kept
 
 // C05: NormalizeNumber returns its two arguments in one common numeric
 // representation; fixnum pairs are returned as they are.
